@@ -7,6 +7,7 @@ white space, an underscore or a sign.
 -/
 import Wheatley.Model.Parse
 import Wheatley.Lemmas.StartRow
+import Wheatley.Lemmas.RoundTrip
 namespace Wheatley.C18
 open Wheatley.Parse
 
@@ -403,5 +404,237 @@ theorem startRow_accepts_iff (s : List Char) (n : Nat) :
 /-! Non-vacuity: Queens on six is accepted with value 6; a row with a gap is not. -/
 example : startRow "135246".toList = .ok 6 ∧ startRow "1356".toList = .own "StartRowParseError" := by
   constructor <;> rfl
+
+/-! ### The value of a peal speed -/
+
+/-- An interpretation of Python's Unicode tables that is right about ASCII: `0`–`9` are decimal digits
+with their usual values and are not white space. -/
+structure Ascii (c : Chars) : Prop where
+  digit : ∀ ch : Char, ch.isDigit = true → c.dv ch = some (ch.toNat - 48)
+  nospace : ∀ ch : Char, ch.isDigit = true → c.sp ch = false
+  letters : c.sp 'h' = false ∧ c.sp 'm' = false
+
+/-- The decimal numeral of `n`. -/
+def numeral (n : Nat) : List Char := Nat.toDigits 10 n
+
+theorem numeral_digits (n : Nat) : ∀ ch ∈ numeral n, ch.isDigit = true :=
+  fun _ h => Nat.isDigit_of_mem_toDigits (by decide) (by decide) h
+
+theorem numeral_ne_nil (n : Nat) : numeral n ≠ [] := Nat.toDigits_ne_nil
+
+theorem isDigit_ne (ch : Char) (h : ch.isDigit = true) (x : Char) (hx : x.isDigit = false) : ch ≠ x := by
+  intro e; subst e; rw [h] at hx; cases hx
+
+theorem digitsVal_digits (c : Chars) (ha : Ascii c) :
+    ∀ (l : List Char) (acc : Nat) (prev : Bool), (∀ ch ∈ l, ch.isDigit = true) → (l ≠ [] ∨ prev = true) →
+      digitsVal c l acc prev = some (Nat.ofDigitChars 10 l acc) := by
+  intro l
+  induction l with
+  | nil =>
+    intro acc prev _ h
+    rcases h with h | h
+    · exact absurd rfl h
+    · simp [digitsVal, h]
+  | cons ch rest ih =>
+    intro acc prev hd _
+    have hch : ch.isDigit = true := hd ch (by simp)
+    have hne : ch ≠ '_' := isDigit_ne ch hch '_' (by decide)
+    unfold digitsVal
+    rw [if_neg hne, ha.digit ch hch]
+    simp only []
+    rw [ih _ true (fun x hx => hd x (by simp [hx])) (Or.inr rfl), Nat.ofDigitChars_cons]
+    congr 2
+    show acc * 10 + (ch.toNat - 48) = 10 * acc + (ch.toNat - '0'.toNat)
+    have : '0'.toNat = 48 := by decide
+    rw [this]; omega
+
+theorem strip_digits (c : Chars) (ha : Ascii c) (l : List Char) (hd : ∀ ch ∈ l, ch.isDigit = true) :
+    strip c l = l := by
+  have key : ∀ m : List Char, (∀ ch ∈ m, ch.isDigit = true) → m.dropWhile c.sp = m := by
+    intro m hm
+    cases m with
+    | nil => rfl
+    | cons x xs => simp [List.dropWhile_cons, ha.nospace x (hm x (by simp))]
+  unfold strip
+  rw [key l hd, key l.reverse (fun ch h => hd ch (by simpa using h)), List.reverse_reverse]
+
+/-- `int()` of a decimal numeral is the number. -/
+theorem pyInt_numeral (c : Chars) (ha : Ascii c) (n : Nat) : pyInt c (numeral n) = some (n : Int) := by
+  unfold pyInt
+  rw [strip_digits c ha _ (numeral_digits n)]
+  have hv := digitsVal_digits c ha (numeral n) 0 false (numeral_digits n) (Or.inl (numeral_ne_nil n))
+  have hval : Nat.ofDigitChars 10 (numeral n) 0 = n := Nat.ofDigitChars_ten_toDigits
+  cases hl : numeral n with
+  | nil => exact absurd hl (numeral_ne_nil n)
+  | cons x xs =>
+    have hx : x.isDigit = true := numeral_digits n x (by rw [hl]; simp)
+    have h1 : x ≠ '-' := isDigit_ne x hx '-' (by decide)
+    have h2 : x ≠ '+' := isDigit_ne x hx '+' (by decide)
+    rw [hl] at hv
+    split
+    · rename_i r heq; simp at heq; exact absurd heq.1 h1
+    · rename_i r heq; simp at heq; exact absurd heq.1 h2
+    · rw [hv, ← hl, hval]; rfl
+
+theorem strip_id (c : Chars) (l : List Char) (h : ∀ ch ∈ l, c.sp ch = false) : strip c l = l := by
+  have key : ∀ m : List Char, (∀ ch ∈ m, c.sp ch = false) → m.dropWhile c.sp = m := by
+    intro m hm
+    cases m with
+    | nil => rfl
+    | cons x xs => simp [List.dropWhile_cons, hm x (by simp)]
+  unfold strip
+  rw [key l h, key l.reverse (fun ch hc => h ch (by simpa using hc)), List.reverse_reverse]
+
+theorem numeral_nospace (c : Chars) (ha : Ascii c) (n : Nat) : ∀ ch ∈ numeral n, c.sp ch = false :=
+  fun ch h => ha.nospace ch (numeral_digits n ch h)
+
+theorem numeral_no (n : Nat) (x : Char) (hx : x.isDigit = false) : x ∉ numeral n :=
+  fun h => by have := numeral_digits n x h; rw [this] at hx; cases hx
+
+theorem endsWith_numeral (n : Nat) : endsWith 'm' (numeral n) = false := by
+  unfold endsWith
+  cases h : (numeral n).getLast? with
+  | none => rfl
+  | some y =>
+    have hy : y ∈ numeral n := List.mem_of_getLast? h
+    have : y ≠ 'm' := isDigit_ne y (numeral_digits n y hy) 'm' (by decide)
+    simp [this]
+
+theorem endsWith_snoc (l : List Char) : endsWith 'm' (l ++ ['m']) = true := by
+  simp [endsWith]
+
+/-- The five documented ways of writing a peal speed (`178`, `178m`, `2h58`, `2h58m`, `3h`). -/
+inductive SpeedText where
+  | minutes (m : Nat) (suffix : Bool)
+  | hoursMinutes (h m : Nat) (suffix : Bool)
+  | hours (h : Nat)
+
+def SpeedText.text : SpeedText → List Char
+  | .minutes m sfx => numeral m ++ (if sfx then ['m'] else [])
+  | .hoursMinutes h m sfx => numeral h ++ 'h' :: (numeral m ++ (if sfx then ['m'] else []))
+  | .hours h => numeral h ++ ['h']
+
+def SpeedText.value : SpeedText → Int
+  | .minutes m _ => m
+  | .hoursMinutes h m _ => (h : Int) * 60 + m
+  | .hours h => (h : Int) * 60
+
+def SpeedText.WF : SpeedText → Prop
+  | .hoursMinutes _ m _ => m ≤ 59
+  | _ => True
+
+/-- **The value of a peal speed**: each documented form is converted to the number of minutes it says. -/
+theorem pealSpeed_value (c : Chars) (ha : Ascii c) (t : SpeedText) (hw : t.WF) :
+    pealSpeed c t.text = .ok t.value := by
+  have hm' : c.sp 'm' = false := ha.letters.2
+  have hh' : c.sp 'h' = false := ha.letters.1
+  cases t with
+  | minutes m sfx =>
+    have hs : strip c (SpeedText.minutes m sfx).text = (SpeedText.minutes m sfx).text := by
+      apply strip_id
+      intro ch hch
+      simp only [SpeedText.text, List.mem_append] at hch
+      rcases hch with h | h
+      · exact numeral_nospace c ha m ch h
+      · cases sfx <;> simp at h; subst h; exact hm'
+    unfold pealSpeed
+    simp only [hs]
+    have hs2 : (if endsWith 'm' (SpeedText.minutes m sfx).text then (SpeedText.minutes m sfx).text.dropLast
+        else (SpeedText.minutes m sfx).text) = numeral m := by
+      cases sfx
+      · simp [SpeedText.text, endsWith_numeral]
+      · simp [SpeedText.text, endsWith_snoc]
+    rw [hs2]
+    have hc : (numeral m).contains 'h' = false := by
+      have := numeral_no m 'h' (by decide); simpa using this
+    simp only [hc, Bool.false_eq_true, if_false, pyInt_numeral c ha m]
+    simp [SpeedText.value]
+  | hours h =>
+    have hs : strip c (SpeedText.hours h).text = (SpeedText.hours h).text := by
+      apply strip_id
+      intro ch hch
+      simp only [SpeedText.text, List.mem_append, List.mem_singleton] at hch
+      rcases hch with hx | hx
+      · exact numeral_nospace c ha h ch hx
+      · subst hx; exact hh'
+    unfold pealSpeed
+    simp only [hs]
+    have he : endsWith 'm' (SpeedText.hours h).text = false := by simp [SpeedText.text, endsWith]
+    simp only [he, Bool.false_eq_true, if_false]
+    have hc : (SpeedText.hours h).text.contains 'h' = true := by simp [SpeedText.text]
+    simp only [hc, if_true]
+    have hsp : splitOn 'h' (SpeedText.hours h).text = [numeral h, []] := by
+      show splitOn 'h' (numeral h ++ 'h' :: []) = _
+      rw [RoundTrip.splitOn_append 'h' _ _ (numeral_no h 'h' (by decide))]
+      rfl
+    simp only [hsp, strip_id c _ (numeral_nospace c ha h), pyInt_numeral c ha h]
+    simp [strip, SpeedText.value]
+  | hoursMinutes h m sfx =>
+    have hm59 : m ≤ 59 := hw
+    have hs : strip c (SpeedText.hoursMinutes h m sfx).text = (SpeedText.hoursMinutes h m sfx).text := by
+      apply strip_id
+      intro ch hch
+      simp only [SpeedText.text, List.mem_append, List.mem_cons] at hch
+      rcases hch with hx | hx | hx | hx
+      · exact numeral_nospace c ha h ch hx
+      · subst hx; exact hh'
+      · exact numeral_nospace c ha m ch hx
+      · cases sfx <;> simp at hx; subst hx; exact hm'
+    unfold pealSpeed
+    simp only [hs]
+    have hs2 : (if endsWith 'm' (SpeedText.hoursMinutes h m sfx).text then (SpeedText.hoursMinutes h m sfx).text.dropLast
+        else (SpeedText.hoursMinutes h m sfx).text) = numeral h ++ 'h' :: numeral m := by
+      cases sfx
+      · have : endsWith 'm' (numeral h ++ 'h' :: numeral m) = false := by
+          have hne := numeral_ne_nil m
+          have hy : ((numeral m).getLast hne).isDigit = true := numeral_digits m _ (List.getLast_mem hne)
+          have hym : (numeral m).getLast hne ≠ 'm' := isDigit_ne _ hy 'm' (by decide)
+          have e2 : numeral h ++ 'h' :: numeral m =
+              (numeral h ++ 'h' :: (numeral m).dropLast) ++ [(numeral m).getLast hne] := by
+            conv => lhs; rw [← List.dropLast_concat_getLast hne]
+            simp
+          unfold endsWith
+          rw [e2, List.getLast?_concat]
+          simp [hym]
+        simp [SpeedText.text, this]
+      · have e : (SpeedText.hoursMinutes h m true).text = (numeral h ++ 'h' :: numeral m) ++ ['m'] := by
+          simp [SpeedText.text]
+        rw [e, endsWith_snoc]
+        simp only [if_true]
+        exact List.dropLast_concat
+    rw [hs2]
+    have hc : (numeral h ++ 'h' :: numeral m).contains 'h' = true := by simp
+    simp only [hc, if_true]
+    have hsp : splitOn 'h' (numeral h ++ 'h' :: numeral m) = [numeral h, numeral m] := by
+      rw [RoundTrip.splitOn_append 'h' _ _ (numeral_no h 'h' (by decide)),
+          RoundTrip.splitOn_nosep 'h' _ (numeral_no m 'h' (by decide))]
+    simp only [hsp, strip_id c _ (numeral_nospace c ha h), strip_id c _ (numeral_nospace c ha m),
+      pyInt_numeral c ha h, pyInt_numeral c ha m]
+    have hne : (numeral m).isEmpty = false := by
+      cases hq : numeral m with
+      | nil => exact absurd hq (numeral_ne_nil m)
+      | cons _ _ => rfl
+    simp only [hne, Bool.false_eq_true, if_false]
+    have h1 : ¬ ((h : Int) < 0) := by omega
+    have h2 : ¬ ((m : Int) < 0) := by omega
+    have h3 : ¬ ((59 : Int) < (m : Int)) := by omega
+    simp [h1, h2, h3, SpeedText.value]
+
+/-! Non-vacuity: the ASCII-only interpretation is `Ascii`, and `2h58` is 178 minutes. -/
+def asciiChars : Chars :=
+  { dv := fun ch => if ch.isDigit then some (ch.toNat - 48) else none, sp := fun ch => ch = ' ' }
+
+example : Ascii asciiChars :=
+  ⟨fun ch h => by simp [asciiChars, h],
+   fun ch h => by
+     have : ch ≠ ' ' := isDigit_ne ch h ' ' (by decide)
+     simp [asciiChars, this],
+   by decide⟩
+
+example : (SpeedText.hoursMinutes 2 58 false).text = "2h58".toList ∧
+    (SpeedText.hoursMinutes 2 58 false).value = 178 ∧ (SpeedText.hoursMinutes 2 58 false).WF := by
+  refine ⟨by decide, by decide, ?_⟩
+  show 58 ≤ 59
+  omega
 
 end Wheatley.C18
